@@ -97,3 +97,26 @@ META["C14"] = dict(
     assumptions=["finite positive x for LogHist; min<max; HistogramQuantile at goal=floor(q*total)=0 accepts NaN (the property is silent there)",
                  "the harness also asserts after every single Add that the grand total grew by exactly one"],
 )
+
+SMP_RULE = ("smp [ops]: one history per line over up to 6 named Samples: new (0..40 values, thorough 0..200, offsets up to 1e9 spreads, repeats, "
+            "optional weights: integer with zeros / positive / 0-1 / dyadic / all zero; Sorted flag only on ascending data), sort, copy (then sort the copy and dump the original), "
+            "dump (contents + flag), queries. non-trivial = history with >=2 operations after the constructors; distinct = distinct input line")
+META["C09"] = dict(
+    level_text="Theorems (Lean): the incremental (Welford) mean/variance folds equal sum/n and the (n-1)-denominator definition for every list; the weighted incremental mean equals sum(wx)/sum(w) whenever the total weight is non-zero (zero weights skipped); statistics are permutation invariant; Sort yields an ascending permutation of the (value, weight) pairs and is idempotent; integer weights behave as repetition. Correspondence: histories of Sort/Copy/queries on real Samples are compared with the heap model (Bounds, Weight of unit weights, Sort order, Copy contents exactly; Mean/Variance/Sum within the stated forward-error bounds; GeoMean/StdDev against interval enclosures), plus the vec helpers.",
+    level_note="Trusted: Lean kernel, harness sampling, interval enclosures of log/exp/sqrt (MV.I) for GeoMean, Logspace. Float summation order is not modelled; tolerances Mean 16(n+2)eps*max|x|, Variance 16(n+2)eps(M*D+D^2).",
+    technique="Lean 4 proofs (fold = definition, permutation invariance, sort correctness) + differential correspondence over Sample histories",
+    rule=SMP_RULE + "; vec sum/linspace/logspace/concat/map on random slices",
+    exhaustive_part="",
+    trusted_base=COMMON_TB + ["MV.I interval enclosures (log, exp) for GeoMean and Logspace"],
+    assumptions=["finite data; weights non-negative; GeoMean of weighted data only checked for positive data (the property specifies NaN only for unweighted non-positive data)",
+                 "weighted Variance/StdDev are not implemented by the library (panic) and are not called"],
+)
+META["C10"] = dict(
+    level_text="Theorems (Lean): the model quantile is the Hyndman-Fan type 8 definition with clamping; it is non-decreasing in q, lies between min and max, returns them at q<=0 / q>=1, is invariant under permutation and under the Sorted flag on ascending data; the weighted quantile is the first ascending value whose cumulative weight exceeds qW. Correspondence: Sample.Quantile and IQR of the real code are compared with the model on histories (so that the sample is also checked to be unmodified by dumps afterwards), with q at the exact break points and their float neighbours.",
+    level_note="Trusted: Lean kernel, harness sampling. The unweighted quantile is continuous in h, so rounding of h is absorbed by tolerance 32 eps((n+1)*maxgap+max|x|); the weighted quantile is a step function: either neighbour is accepted when q*W is within 16(n+1)eps*W of a cumulative weight.",
+    technique="Lean 4 proofs about the R8 definition + differential correspondence with break-point-directed generation",
+    rule=SMP_RULE + "; quantile queries dominate: q at (j-1/3)/(n+1/3) and its float neighbours, {0,1,-0.5,1.5,.25,.5,.75}, near the clamping thresholds, uniform in [-0.5,1.5]; IQR",
+    exhaustive_part="",
+    trusted_base=COMMON_TB,
+    assumptions=["finite data; positive or zero weights"],
+)
